@@ -120,7 +120,13 @@ pub struct Subject {
     pub tap: Option<crate::http::Tap>,
     /// serve through the real executable (SQLite, HTTP over a socket); `reopen` = kill -9 + restart
     pub binary: bool,
+    /// another process' connection to the same database, held open across kills and restarts of the
+    /// executable (every other executable subject has one): the write-ahead log then survives the
+    /// server's own connections
+    bystander: Option<rusqlite::Connection>,
 }
+
+static BINARY_SUBJECTS: std::sync::atomic::AtomicUsize = std::sync::atomic::AtomicUsize::new(0);
 
 pub fn db_file(dir: &std::path::Path) -> PathBuf {
     dir.join("taskchampion-sync-server.sqlite3")
@@ -140,7 +146,7 @@ impl Subject {
                 (Arc::new(s), Some(d))
             }
         };
-        let mut s = Subject { kind, config, allowlist, storage, front: None, peer: None, peer_turn: 0, dir, wrap, last_http: None, reopens: 0, tap: None, binary: false };
+        let mut s = Subject { kind, config, allowlist, storage, front: None, peer: None, peer_turn: 0, dir, wrap, last_http: None, reopens: 0, tap: None, binary: false, bystander: None };
         s.build_front();
         Ok(s)
     }
@@ -150,8 +156,14 @@ impl Subject {
         let kind = Kind { backend: Backend::Sqlite, entry: Entry::Http, reopen_pct, socket: true, peers: false };
         let d = ScratchDir::new("dbbin");
         let st = SqliteStorage::new(d.path())?;
-        let mut s = Subject { kind, config, allowlist, storage: Arc::new(st), front: None, peer: None, peer_turn: 0, dir: Some(d), wrap: None, last_http: None, reopens: 0, tap: None, binary: true };
+        let mut s = Subject { kind, config, allowlist, storage: Arc::new(st), front: None, peer: None, peer_turn: 0, dir: Some(d), wrap: None, last_http: None, reopens: 0, tap: None, binary: true, bystander: None };
         s.start_binary()?;
+        if BINARY_SUBJECTS.fetch_add(1, std::sync::atomic::Ordering::SeqCst) % 2 == 1 {
+            if let Ok(c) = rusqlite::Connection::open(db_file(s.dir.as_ref().unwrap().path())) {
+                let _: Result<i64, _> = c.query_row("SELECT count(*) FROM clients", [], |r| r.get(0));
+                s.bystander = Some(c);
+            }
+        }
         Ok(s)
     }
 
@@ -196,6 +208,7 @@ impl Subject {
             reopens: 0,
             tap: None,
             binary: false,
+            bystander: None,
         };
         s.build_front();
         Ok(s)
